@@ -440,3 +440,147 @@ V("C16", "C16.R3", "c16-version-in-code", "shroud/util.py",
   '''        self.write_copyright(fp)
         fp.write("static const char *shroud_version = \\"%s\\";\\n" % self.config.write_version)
         self.indent = 0''', "fire", "write_output_file")
+
+# ---------------------------------------------------------------------------
+# C12
+# ---------------------------------------------------------------------------
+V("C12", "C12.R1", "c12-reader-marker-renamed", "shroud/splicer.py",
+  'str_begin = "splicer begin"', 'str_begin = "splicer start"', "fire", "marker.begin")
+V("C12", "C12.R1", "c12-writer-end-other-name", "shroud/util.py",
+  '"%s splicer end %s%s" % (self.comment, self.splicer_path, name)',
+  '"%s splicer end %s%s" % (self.comment, self.splicer_path, name.lower())', "fire", "begin-end-same-name")
+V("C12", "C12.R1", "c12-writer-no-leader", "shroud/util.py",
+  '''                "%s splicer begin %s%s"
+                % (self.comment, self.splicer_path, name)''',
+  '''                "splicer begin %s%s%s"
+                % (self.splicer_path, name, "")''', "fire", "marker.begin")
+V("C12", "C12.R1", "c12-separator-changed", "shroud/util.py",
+  '''        self.splicer_names.append(name)
+        self.splicer_path = ".".join(self.splicer_names) + "."''',
+  '''        self.splicer_names.append(name)
+        self.splicer_path = "::".join(self.splicer_names) + "::"''', "fire", "")
+V("C12", "C12.R2", "c12-user-before-force", "shroud/util.py",
+  '''        if force is not None:
+            out.extend(force)
+        elif name in self.splicer_stack[-1]:
+            code = self.splicer_stack[-1][name]
+            out.extend(code)''',
+  '''        if name in self.splicer_stack[-1]:
+            code = self.splicer_stack[-1][name]
+            out.extend(code)
+        elif force is not None:
+            out.extend(force)''', "fire", "order")
+V("C12", "C12.R2", "c12-default-always-added", "shroud/util.py",
+  '''        elif default is not None:
+            out.extend(default)
+        else:
+            added_code = False''',
+  '''        else:
+            added_code = False
+        if default is not None:
+            out.extend(default)''', "fire", "")
+V("C12", "C12.R3", "c12-pop-removed", "shroud/wrapc.py",
+  '''        for node in library.functions:
+            self.wrap_function(None, node)
+        self._pop_splicer("function")''',
+  '''        for node in library.functions:
+            self.wrap_function(None, node)''', "fire", "Wrapc.wrap_functions")
+V("C12", "C12.R3", "c12-pop-wrong-name", "shroud/wrapc.py",
+  '''        for node in library.functions:
+            self.wrap_function(None, node)
+        self._pop_splicer("function")''',
+  '''        for node in library.functions:
+            self.wrap_function(None, node)
+        self._pop_splicer("method")''', "fire", "Wrapc.wrap_functions")
+V("C12", "C12.R3", "c12-early-return-between", "shroud/wrapc.py",
+  '''        self._push_splicer("function")
+        for node in library.functions:
+            self.wrap_function(None, node)''',
+  '''        self._push_splicer("function")
+        if not library.functions:
+            return
+        for node in library.functions:
+            self.wrap_function(None, node)''', "fire", "Wrapc.wrap_functions")
+V("C12", "C12.R3", "c12-silent-pop-moved-same-path", "shroud/wrapc.py",
+  '''        self._push_splicer("function")
+        for node in library.functions:
+            self.wrap_function(None, node)''',
+  '''        self._push_splicer("function")
+        functions = library.functions
+        for node in functions:
+            self.wrap_function(None, node)''', "silent")
+V("C12", "C12.R4", "c12-reader-strips-both", "shroud/splicer.py",
+  "save.append(line.rstrip())", "save.append(line.strip())", "fire", "reader.store")
+V("C12", "C12.R5", "c12-wholesale-update-back", "shroud/main.py",
+  'util.update(splicers, allinput["splicer_code"])', 'splicers.update(allinput["splicer_code"])', "fire", "splicers.update")
+
+# ---------------------------------------------------------------------------
+# C13
+# ---------------------------------------------------------------------------
+V("C13", "C13.R1", "c13-literal-drops-two", "shroud/util.py",
+  "self.write_continue(fp, subline[1:], spaces)\n                    elif subline[0] == \"^\":",
+  "self.write_continue(fp, subline[2:], spaces)\n                    elif subline[0] == \"^\":", "fire", "")
+V("C13", "C13.R1", "c13-new-undocumented-directive", "shroud/util.py",
+  '''                    elif subline[0] == "^":''',
+  '''                    elif subline[0] == "~":
+                        fp.write(subline[1:])
+                        fp.write("\\n")
+                    elif subline[0] == "^":''', "fire", "")
+V("C13", "C13.R1", "c13-hash-line-indented", "shroud/util.py",
+  '''                        # preprocessing directives work better in column 1
+                        fp.write(subline)''',
+  '''                        # preprocessing directives work better in column 1
+                        fp.write(subline.strip())''', "fire", "whole")
+V("C13", "C13.R1", "c13-indent-by-two", "shroud/util.py",
+  '''                        #   +text[-]
+                        self.indent += 1''',
+  '''                        #   +text[-]
+                        self.indent += 2''', "fire", "indent")
+V("C13", "C13.R2", "c13-blank-is-hint", "shroud/util.py",
+  '''            elif ch == "\\f":
+                if part:
+                    parts.append(part)
+                    part = ""
+                parts.append("\\f")''',
+  '''            elif ch == "\\f":
+                if part:
+                    parts.append(part)
+                    part = ""
+                parts.append("\\f")
+            elif ch == " " and len(part) > 60:
+                parts.append(part)
+                part = ""''', "fire", "hints")
+V("C13", "C13.R3", "c13-part-dropped-on-break", "shroud/util.py",
+  '''                part = part.lstrip()
+                if not part:
+                    save = False''',
+  '''                part = part.lstrip()
+                save = False''', "fire", "path")
+V("C13", "C13.R3", "c13-reset-without-write", "shroud/util.py",
+  '''            if dump:
+                fp.write(subline + self.cont + "\\n")
+                subline = spaces * (self.indent + indent)''',
+  '''            if dump:
+                if nparts:
+                    fp.write(subline + self.cont + "\\n")
+                subline = spaces * (self.indent + indent)''', "fire", "write-before-reset")
+V("C13", "C13.R4", "c13-cont-dropped", "shroud/util.py",
+  'fp.write(subline + self.cont + "\\n")', 'fp.write(subline + "\\n")', "fire", "cont")
+V("C13", "C13.R4", "c13-fortran-cont-wrong", "shroud/wrapf.py",
+  'self.cont = " &"', 'self.cont = " \\\\"', "fire", "Wrapf.cont")
+V("C13", "C13.R5", "c13-default-too-long", "shroud/ast.py",
+  "F_line_length=72,", "F_line_length=131,", "fire", "132")
+V("C13", "C13.R5", "c13-break-ignores-pending", "shroud/util.py",
+  "elif len(subline) + len(part) > linelen:", "elif len(part) > linelen:", "fire", "break-decision")
+V("C13", "C13.R3", "c13-silent-rename-local", "shroud/util.py",
+  '''            dump = False
+            save = True
+            if part == "\\f":  # formfeed
+                # write out line now, this must not be the last part
+                dump = True
+                save = False  # don't save newline''',
+  '''            dump = False
+            save = True
+            if part == "\\f":  # formfeed
+                dump = True
+                save = False''', "silent")
